@@ -98,6 +98,7 @@ def run(prop, tier, seed, replay=None):
                                       "ops": S.history_ops(mgr, pref, x["hist"])})
     # expression-level transcripts: printed text, oracle verdicts
     expr_cases = 0
+    rooteq_cases = rooteq_obs = 0
     for fam in ("c04", "c06", "c11", "c12"):
         def load(b, hs):
             pref = os.path.join(sc, "c20_%s_%s_%d" % (fam, b, hs))
@@ -110,6 +111,8 @@ def run(prop, tier, seed, replay=None):
             return texts, fails, res, vals, lines, vals0
         t0, f0, r0, v0, l0, z0 = load(configs[0][0], configs[0][2])
         expr_cases += len(t0)
+        rooteq_cases += sum(1 for o in l0 if o.get("op") == "rooteq")
+        rooteq_obs += int(r0["stats"].get("rooteq_observations", 0))
         for b, bd, hs in configs[1:]:
             t1, f1, r1, v1, l1, z1 = load(b, hs)
             if v1 != v0:
@@ -128,6 +131,12 @@ def run(prop, tier, seed, replay=None):
                     diverging.append({"family": fam, "config": [b, hs], "base": [configs[0][0], configs[0][2]],
                                       "first_value_difference": [v0[k], v1[k]],
                                       "case": {kk: x for kk, x in l0[k].items() if kk not in ("impl", "hist")}})
+                    if l0[k].get("op") == "rooteq":
+                        # the transcript of a container-ref case is a table of named observations: name the ones that differ
+                        oa, ob = json.loads(v0[k]), json.loads(v1[k])
+                        diverging[-1]["observations_that_differ"] = {nm: [oa.get(nm), ob.get(nm)] for nm in sorted(set(oa) | set(ob))
+                                                                     if oa.get(nm) != ob.get(nm)}
+                        del diverging[-1]["first_value_difference"]
             if t1 != t0 or f1 != f0:
                 k = next((i for i, (x, y) in enumerate(zip(t0, t1)) if x != y), None)
                 diverging.append({"family": fam, "config": [b, hs], "base": [configs[0][0], configs[0][2]],
@@ -159,5 +168,8 @@ def run(prop, tier, seed, replay=None):
                        "traces_validated_against_impl": nlines, "configurations": len(configs),
                        "histories_order_dependent_D1": known_d1, "configurations_with_zero_sign_difference_D30": known_d30,
                        "D30_samples": d30_samples[:3], "diverging": len(diverging), "lean_problems": lean_problems})
+    # top-level container refs (Manager.refattr() / Manager.ref()) compared, hashed, looked up, ordered inside definitions:
+    # cases of the c06 corpus whose whole observation table is part of the transcript compared between configurations
+    v.coverage.update({"container_ref_cases": rooteq_cases, "container_ref_observations_per_configuration": rooteq_obs})
     v.assumptions = ["the generator is deterministic for a given VERIF_SEED (no iteration over sets)"]
     return v.finish()
